@@ -129,4 +129,54 @@ def c04(chk):
         ctx_model(chk, "full", {"history", "panic"}, simulate=(3000, 40))
 
 
-CHECKS = {"C04": c04, "C10": c10, "C03": c03, "C01": c01, "C02": c02, "C05": c05, "C13": c13, "C14": c14}
+PROG_FLOATS = [[0, 0, 0, 0], [16368, 0, 0, 0], [16384, 0, 0, 0], [16392, 0, 0, 0], [16400, 0, 0, 0], [16404, 0, 0, 0],
+               [16408, 0, 0, 0], [16412, 0, 0, 0], [16416, 0, 0, 0], [16352, 0, 0, 0], [16376, 0, 0, 0],
+               [49136, 0, 0, 0], [49152, 0, 0, 0], [49160, 0, 0, 0], [49168, 0, 0, 0], [16420, 0, 0, 0], [16424, 0, 0, 0]]
+
+
+def prog_model(chk, family, depth, relevant, nontrivial, workers=12, timeout=1500):
+    prims = vf.make_prims("prog", chk.outdir, extra={"floats": PROG_FLOATS})
+    tag = f"prog_{family}{depth}"
+    info, summ = vf.run_model(tag, "MC_Prog.tla", {"Family": family, "Depth": depth}, chk.outdir, workers=workers,
+                              timeout=timeout, env_extra={"PRIMS": prims})
+    chk.add_model(info, summ, relevant, nontrivial,
+                  note=f"MC_Prog.tla family={family}: programs of up to {depth + 1} atoms x initial contexts")
+
+
+def c08(chk):
+    chk.rule = ("programs of up to three (thorough: four) atoms from {x = 1, x += 1, x, undefined, 1, \"s\", true, 1/0, f(2), "
+                "fail(1), g(x)} combined by + && || == , ; - ! and call nesting, from three initial contexts; "
+                "non-trivial = distinct (program, context) cases")
+    prog_model(chk, "order", 2, {"order", "panic"}, ["order_nontrivial"],
+               workers=12 if chk.tier == "quick" else 16, timeout=3000)
+
+
+def c11(chk):
+    chk.rule = ("the programs of C08 plus all nine assignment operators, each evaluated through the immutable and the mutable "
+                "entry point on {HashMapContext x3, a read-only context, EmptyContext, EmptyContextWithBuiltinFunctions}; "
+                "non-trivial = distinct (program, context, mode) cases")
+    prog_model(chk, "imm", 1 if chk.tier == "quick" else 2, {"imm", "panic"}, ["imm_nontrivial"],
+               workers=12 if chk.tier == "quick" else 16, timeout=3000)
+
+
+def c12(chk):
+    chk.rule = ("programs of one or two (thorough: three) atoms covering every result type and error kind x three contexts x "
+                "all 48 entry points (24 string-level, 24 tree-level); non-trivial = distinct (program, context, entry point)")
+    prog_model(chk, "entry", 1 if chk.tier == "quick" else 2, {"entry", "panic"}, ["entry_nontrivial"],
+               workers=12 if chk.tier == "quick" else 16, timeout=3000)
+    # ill-formed and unspecified inputs as well: precompilation errors are returned unchanged, string = tree level
+    tokens(chk, "core", 4 if chk.tier == "quick" else 5, {"entry_consistency", "panic"}, ["if", "unspec"])
+
+
+def c09(chk):
+    chk.rule = ("the complete matrix: 51 names x {EmptyContext, EmptyContextWithBuiltinFunctions, HashMapContext with builtins "
+                "on/off x user function absent / 4 behaviours x variable of the same name absent/bound} x 5 call forms; "
+                "plus the context histories of MC_Ctx (clone, clear_functions, toggling) which call f(2) and max(1, 2); "
+                "non-trivial = distinct cases")
+    prims = vf.make_prims("resolve", chk.outdir, extra={"floats": PROG_FLOATS})
+    info, summ = vf.run_model("resolve", "MC_Resolve.tla", {}, chk.outdir, env_extra={"PRIMS": prims})
+    chk.add_model(info, summ, {"resolve", "panic"}, ["resolve_nontrivial"], note="MC_Resolve.tla: the complete configuration matrix")
+    ctx_model(chk, "small", {"history", "panic"}, workers=12 if chk.tier == "quick" else 16)
+
+
+CHECKS = {"C09": c09, "C08": c08, "C11": c11, "C12": c12, "C04": c04, "C10": c10, "C03": c03, "C01": c01, "C02": c02, "C05": c05, "C13": c13, "C14": c14}
